@@ -195,7 +195,10 @@ fn gen_msg(t: &mut Tape, focus: Focus, allow_big: bool) -> Msg {
     let nch = chunks.len();
     let end = match focus {
         Focus::Coop => EndKind::Clean,
-        _ => match t.weighted(&[5, 2, 2]) {
+        // a send half dropped while the same side keeps reading leaves the peer's reader waiting for
+        // ever by design (no RST until the last handle goes): fine for wire/reset oracles, but a
+        // program-level circular wait for "everything resolves" verdicts
+        _ => match t.weighted(&[5, 2, if focus == Focus::Faults { 0 } else { 2 }]) {
             0 => EndKind::Clean,
             1 => EndKind::Reset { after: t.below(nch + 1), code: if t.chance(3, 4) { t.below(14) as u32 } else { t.u32() } },
             _ => EndKind::Drop { after: t.below(nch + 1) },
@@ -214,7 +217,10 @@ fn gen_msg(t: &mut Tape, focus: Focus, allow_big: bool) -> Msg {
 
 fn gen_reader(t: &mut Tape, focus: Focus) -> Reader {
     match focus {
-        Focus::Coop => match t.weighted(&[3, 2]) {
+        // (Faults: a receive handle dropped while another handle of the stream stays alive neither resets
+        // the stream nor grants it window — the peer's sender then waits by design, which would be a
+        // program-level hang in "everything resolves after graceful shutdown" verdicts)
+        Focus::Coop | Focus::Faults => match t.weighted(&[3, 2]) {
             0 => Reader::Eager,
             _ => Reader::Deferred(1 + t.below(8)),
         },
@@ -308,6 +314,14 @@ pub fn gen_pair(tapes: &[Vec<u32>], focus: Focus) -> PairCase {
             ops.push(ConnOp { side, after_events: t.below(40), cmd });
         }
     }
+    if t.chance(1, 5) {
+        // two or three pings from one side, some of them when the connection has gone idle
+        let side = if t.bool() { Side::Client } else { Side::Server };
+        let n = 2 + t.below(2);
+        for k in 0..n {
+            ops.push(ConnOp { side, after_events: if t.bool() { t.below(40) } else { 10_000 + k }, cmd: ConnCmd::Ping });
+        }
+    }
     let mut fault = None;
     if focus == Focus::Faults {
         match t.weighted(&[5, 2, 2, 1]) {
@@ -339,7 +353,31 @@ pub fn gen_pair(tapes: &[Vec<u32>], focus: Focus) -> PairCase {
         reqs,
         ops,
         fault,
-        drop_send_request_at_end: t.chance(2, 3),
+        drop_send_request_at_end: t.chance(1, 2),
+    }
+}
+
+pub fn empty_msg() -> Msg {
+    Msg { nfields: 0, big: 0, sensitive: false, chunks: vec![], trailers: None, eos_on_head: true, end: EndKind::Clean }
+}
+
+pub fn default_req(key: u32) -> Req {
+    let mut resp = empty_msg();
+    resp.chunks = vec![Chunk { len: 10, reserve: false, cuts: vec![], delay: 0 }];
+    Req {
+        id: key,
+        method: "GET".into(),
+        delay: 0,
+        req: empty_msg(),
+        req_reader: Reader::Eager,
+        status: 200,
+        interim: 0,
+        resp,
+        resp_reader: Reader::Eager,
+        resp_delay: 0,
+        pushes: vec![],
+        drop_response_future: false,
+        clone_handle: false,
     }
 }
 
@@ -393,6 +431,41 @@ pub fn head_eos(m: &Msg) -> bool {
 pub struct CmdQ {
     pub q: VecDeque<ConnCmd>,
     pub waker: Option<Waker>,
+    /// pings requested (handled by the side's own pinger task)
+    pub pings: usize,
+    pub ping_waker: Option<Waker>,
+    pub closed: bool,
+}
+
+/// Owns the PingPong handle in its own task: send_ping / poll_pong happen away from
+/// the connection task, so the connection must be woken by the handle.
+async fn pinger(mut pp: h2::PingPong, cmds: Rc<RefCell<CmdQ>>, side: Side, log: Log) {
+    loop {
+        let go = poll_fn(|cx| {
+            let mut q = cmds.borrow_mut();
+            if q.pings > 0 {
+                q.pings -= 1;
+                Poll::Ready(true)
+            } else if q.closed {
+                Poll::Ready(false)
+            } else {
+                q.ping_waker = Some(cx.waker().clone());
+                Poll::Pending
+            }
+        })
+        .await;
+        if !go {
+            return;
+        }
+        match pp.send_ping(h2::Ping::opaque()) {
+            Ok(()) => {
+                log.push(side, 0, Api::ConnOp { op: "send_ping -> Ok".into() });
+                let r = poll_fn(|cx| pp.poll_pong(cx)).await;
+                log.push(side, 0, Api::Pong { result: r.map(|_| ()).map_err(|e| err_info(&e)) });
+            }
+            Err(e) => log.push(side, 0, Api::ConnOp { op: format!("send_ping -> Err({})", e) }),
+        }
+    }
 }
 
 #[derive(Clone)]
@@ -654,13 +727,13 @@ async fn client_main(io: Io, case: Rc<PairCase>, ctx: Ctx, cmds: Rc<RefCell<CmdQ
         }
     };
     ctx.probes.borrow_mut().push((Side::Client, conn.verif_probe()));
-    let ping = conn.ping_pong();
+    if let Some(pp) = conn.ping_pong() {
+        ctx.sp.spawn("client-pinger", Group::ClientApp, pinger(pp, cmds.clone(), Side::Client, log.clone()));
+    }
     // connection driver
     {
         let log = log.clone();
         let cmds2 = cmds.clone();
-        let mut ping = ping;
-        let mut ping_outstanding = false;
         ctx.sp.spawn("client-conn", Group::ClientConn, async move {
             let mut conn = Some(conn);
             poll_fn(|cx| {
@@ -669,16 +742,6 @@ async fn client_main(io: Io, case: Rc<PairCase>, ctx: Ctx, cmds: Rc<RefCell<CmdQ
                     let mut q = cmds2.borrow_mut();
                     q.waker = Some(cx.waker().clone());
                     while let Some(c) = q.q.pop_front() {
-                        if let ConnCmd::Ping = c {
-                            if let Some(p) = ping.as_mut() {
-                                if !ping_outstanding {
-                                    let r = p.send_ping(h2::Ping::opaque());
-                                    ping_outstanding = r.is_ok();
-                                    log.push(Side::Client, 0, Api::ConnOp { op: format!("send_ping -> {:?}", r.map_err(|e| e.to_string())) });
-                                }
-                            }
-                            continue;
-                        }
                         if apply_client_cmd(conn.as_mut().unwrap(), &c, &log) {
                             drop_it = true;
                         }
@@ -687,36 +750,20 @@ async fn client_main(io: Io, case: Rc<PairCase>, ctx: Ctx, cmds: Rc<RefCell<CmdQ
                 if drop_it {
                     log.push(Side::Client, 0, Api::ConnOp { op: "drop(Connection)".into() });
                     conn = None;
+                    close_pinger(&cmds2);
                     return Poll::Ready(());
-                }
-                if ping_outstanding {
-                    if let Some(p) = ping.as_mut() {
-                        if let Poll::Ready(r) = p.poll_pong(cx) {
-                            ping_outstanding = false;
-                            log.push(Side::Client, 0, Api::Pong { result: r.map(|_| ()).map_err(|e| err_info(&e)) });
-                        }
-                    }
                 }
                 match std::pin::Pin::new(conn.as_mut().unwrap()).poll(cx) {
                     Poll::Ready(r) => {
                         log.push(Side::Client, 0, Api::ConnDone { result: r.map_err(|e| err_info(&e)) });
                         conn = None;
-                        if ping_outstanding {
-                            // the pong can no longer come; the handle must say so
-                            if let Some(p) = ping.as_mut() {
-                                if let Poll::Ready(r) = p.poll_pong(cx) {
-                                    log.push(Side::Client, 0, Api::Pong { result: r.map(|_| ()).map_err(|e| err_info(&e)) });
-                                    ping_outstanding = false;
-                                }
-                            }
-                        }
+                        close_pinger(&cmds2);
                         Poll::Ready(())
                     }
                     Poll::Pending => Poll::Pending,
                 }
             })
             .await;
-            let _ = ping_outstanding;
         });
     }
     // request tasks
@@ -849,6 +896,14 @@ async fn client_request(sr: client::SendRequest<SegBuf>, r: Req, ctx: Ctx) {
     }
 }
 
+fn close_pinger(cmds: &Rc<RefCell<CmdQ>>) {
+    let mut q = cmds.borrow_mut();
+    q.closed = true;
+    if let Some(w) = q.ping_waker.take() {
+        w.wake();
+    }
+}
+
 // ------------------------------------------------------------ server
 
 async fn server_main(io: Io, case: Rc<PairCase>, ctx: Ctx, cmds: Rc<RefCell<CmdQ>>) {
@@ -862,8 +917,9 @@ async fn server_main(io: Io, case: Rc<PairCase>, ctx: Ctx, cmds: Rc<RefCell<CmdQ
         }
     };
     ctx.probes.borrow_mut().push((Side::Server, conn.verif_probe()));
-    let mut ping = conn.ping_pong();
-    let mut ping_outstanding = false;
+    if let Some(pp) = conn.ping_pong() {
+        ctx.sp.spawn("server-pinger", Group::ServerApp, pinger(pp, cmds.clone(), Side::Server, log.clone()));
+    }
     let mut conn = Some(conn);
     loop {
         let next = poll_fn(|cx| {
@@ -890,15 +946,7 @@ async fn server_main(io: Io, case: Rc<PairCase>, ctx: Ctx, cmds: Rc<RefCell<CmdQ
                             conn.abrupt_shutdown(h2::Reason::from(code));
                             log.push(Side::Server, 0, Api::ConnOp { op: format!("abrupt_shutdown({})", code) });
                         }
-                        ConnCmd::Ping => {
-                            if let Some(p) = ping.as_mut() {
-                                if !ping_outstanding {
-                                    let r = p.send_ping(h2::Ping::opaque());
-                                    ping_outstanding = r.is_ok();
-                                    log.push(Side::Server, 0, Api::ConnOp { op: format!("send_ping -> {:?}", r.map_err(|e| e.to_string())) });
-                                }
-                            }
-                        }
+                        ConnCmd::Ping => {}
                         ConnCmd::DropConnection => drop_it = true,
                         ConnCmd::DropSendRequest => {}
                     }
@@ -906,14 +954,6 @@ async fn server_main(io: Io, case: Rc<PairCase>, ctx: Ctx, cmds: Rc<RefCell<CmdQ
             }
             if drop_it {
                 return Poll::Ready(None);
-            }
-            if ping_outstanding {
-                if let Some(p) = ping.as_mut() {
-                    if let Poll::Ready(r) = p.poll_pong(cx) {
-                        ping_outstanding = false;
-                        log.push(Side::Server, 0, Api::Pong { result: r.map(|_| ()).map_err(|e| err_info(&e)) });
-                    }
-                }
             }
             conn.as_mut().unwrap().poll_accept(cx).map(Some)
         })
@@ -936,7 +976,7 @@ async fn server_main(io: Io, case: Rc<PairCase>, ctx: Ctx, cmds: Rc<RefCell<CmdQ
             Some(Some(Ok((req, respond)))) => {
                 let sid = respond.stream_id().as_u32();
                 log.push(Side::Server, 0, Api::Accepted { stream: sid });
-                let key: u32 = req.headers().get("x-id").and_then(|v| v.to_str().ok()).and_then(|s| s.parse().ok()).unwrap_or(0);
+                let key: u32 = req.headers().get("x-id").and_then(|v| v.to_str().ok()).and_then(|s| s.parse().ok()).unwrap_or(9000 + sid);
                 let script = ctx.reqs.iter().find(|r| r.id == key).cloned();
                 let ctx2 = ctx.clone();
                 ctx.sp.spawn(format!("s-handler-{}", key), Group::ServerApp, server_handler(req, respond, script, key, ctx2));
@@ -944,12 +984,7 @@ async fn server_main(io: Io, case: Rc<PairCase>, ctx: Ctx, cmds: Rc<RefCell<CmdQ
         }
     }
     drop(conn);
-    if ping_outstanding {
-        if let Some(p) = ping.as_mut() {
-            let r = poll_fn(|cx| p.poll_pong(cx)).await;
-            log.push(Side::Server, 0, Api::Pong { result: r.map(|_| ()).map_err(|e| err_info(&e)) });
-        }
-    }
+    close_pinger(&cmds);
 }
 
 async fn server_handler(req: http::Request<RecvStream>, mut respond: server::SendResponse<SegBuf>, script: Option<Req>, key: u32, ctx: Ctx) {
@@ -966,10 +1001,9 @@ async fn server_handler(req: http::Request<RecvStream>, mut respond: server::Sen
     log.push(Side::Server, key, Api::RecvHead { kind: "request", stream: sid, fields: f, eos: body.is_end_stream() });
     let r = match script {
         Some(r) => r,
-        None => {
-            respond.send_reset(h2::Reason::INTERNAL_ERROR);
-            return;
-        }
+        // a request the program has no script for (RAW modes: injected streams): read everything,
+        // answer 200 with a short body
+        None => default_req(key),
     };
     ctx.sp.spawn(format!("s-reqbody-{}", key), Group::ServerApp, read_body(body, r.req_reader.clone(), key, Side::Server, log.clone()));
     yield_n(r.resp_delay).await;
@@ -1056,6 +1090,11 @@ pub struct PairRun {
 }
 
 pub fn run_pair(case: &PairCase) -> PairRun {
+    run_sim(case, None)
+}
+
+/// `raw`: (which side is h2, the scripted peer for the other side)
+pub fn run_sim(case: &PairCase, raw: Option<(Side, Rc<crate::sim_raw::RawSpec>, Rc<RefCell<crate::sim_raw::PeerObs>>)>) -> PairRun {
     let mut exec = Exec::new(case.sched.clone());
     let (cio, sio, wire) = duplex(&exec, case.chunk_c2s.clone(), case.chunk_s2c.clone(), case.vectored_c, case.vectored_s);
     if let Some(f) = &case.fault {
@@ -1067,33 +1106,80 @@ pub fn run_pair(case: &PairCase) -> PairRun {
     let ccmd = Rc::new(RefCell::new(CmdQ::default()));
     let scmd = Rc::new(RefCell::new(CmdQ::default()));
     let rc = Rc::new(case.clone());
-    exec.spawner().spawn("client-main", Group::ClientApp, client_main(cio, rc.clone(), ctx.clone(), ccmd.clone()));
-    exec.spawner().spawn("server-conn", Group::ServerConn, server_main(sio, rc.clone(), ctx.clone(), scmd.clone()));
+    match raw {
+        None => {
+            exec.spawner().spawn("client-main", Group::ClientApp, client_main(cio, rc.clone(), ctx.clone(), ccmd.clone()));
+            exec.spawner().spawn("server-conn", Group::ServerConn, server_main(sio, rc.clone(), ctx.clone(), scmd.clone()));
+        }
+        Some((Side::Server, spec, obs)) => {
+            // h2 server against a scripted raw client
+            std::mem::forget(cio);
+            exec.spawner().spawn("server-conn", Group::ServerConn, server_main(sio, rc.clone(), ctx.clone(), scmd.clone()));
+            exec.spawner().spawn("raw-peer", Group::Peer, crate::sim_raw::peer_task(spec, wire.s2c.clone(), wire.c2s.clone(), true, obs, exec.clock.clone()));
+        }
+        Some((Side::Client, spec, obs)) => {
+            std::mem::forget(sio);
+            exec.spawner().spawn("client-main", Group::ClientApp, client_main(cio, rc.clone(), ctx.clone(), ccmd.clone()));
+            exec.spawner().spawn("raw-peer", Group::Peer, crate::sim_raw::peer_task(spec, wire.c2s.clone(), wire.s2c.clone(), false, obs, exec.clock.clone()));
+        }
+    }
     // controller: fires connection ops when enough API events have been logged
-    if !case.ops.is_empty() {
+    {
         let mut ops = case.ops.clone();
         ops.sort_by_key(|o| o.after_events);
         let log2 = log.clone();
         let (c2, s2) = (ccmd.clone(), scmd.clone());
+        let progress = exec.progress.clone();
         exec.spawner().spawn("controller", Group::Control, async move {
             for op in ops {
+                // wait until enough API events were logged, or the system has gone idle
                 let mut spins = 0;
-                while log2.events.borrow().len() < op.after_events && spins < 200 {
+                let mut idle = 0;
+                let mut last = progress.get();
+                while log2.events.borrow().len() < op.after_events && spins < 20_000 && idle < 40 {
                     yield_now().await;
                     spins += 1;
+                    if progress.get() == last {
+                        idle += 1;
+                    } else {
+                        idle = 0;
+                        last = progress.get();
+                    }
                 }
                 let q = if op.side == Side::Client { &c2 } else { &s2 };
                 let mut q = q.borrow_mut();
+                if let ConnCmd::Ping = op.cmd {
+                    q.pings += 1;
+                    if let Some(w) = q.ping_waker.take() {
+                        w.wake();
+                    }
+                    continue;
+                }
                 q.q.push_back(op.cmd.clone());
                 if let Some(w) = q.waker.take() {
                     w.wake();
                 }
             }
+            // no more pings will be requested: idle pinger tasks may finish
+            close_pinger(&c2);
+            close_pinger(&s2);
         });
     }
     let total_bytes: usize = case.reqs.iter().map(|r| r.req.chunks.iter().map(|c| c.len).sum::<usize>() + r.resp.chunks.iter().map(|c| c.len).sum::<usize>() + r.req.big + r.resp.big).sum();
     let budget = 200_000 + 64 * total_bytes as u64 + 20_000 * case.reqs.len() as u64;
     let mut end = exec.run(budget);
+    if let Some(f) = &case.fault {
+        if end == RunEnd::Quiescent {
+            let p = if f.c2s { &wire.c2s } else { &wire.s2c };
+            let pending = !p.borrow().cut_done;
+            if pending {
+                // the exchange produced fewer bytes than the fault offset: the fault hits now, on an idle
+                // (or finished) connection
+                p.borrow_mut().force_cut(f.kind);
+                end = exec.run(budget);
+            }
+        }
+    }
     let mut completed_when_repolled = None;
     if end == RunEnd::Quiescent && exec.any_panic().is_none() && !exec.unfinished().is_empty() {
         // classify the stall: does it complete when every task is re-polled (spurious polls)?
